@@ -137,7 +137,7 @@ impl<'a> ExecutionEngine<'a> {
         match self.statement {
             Statement::Select(select_statement) => {
                 let output = self.execute_select(&select_statement, line)?;
-                let output = self.update_limit(select_statement.limit, output);
+                let output = self.update_select_limit(select_statement.limit, output);
                 Ok(output)
             }
             Statement::Aggregate(aggregate_statement) => {
@@ -310,6 +310,39 @@ impl<'a> ExecutionEngine<'a> {
 
     fn execute_aggregate_result(&mut self, aggregate_statement: &AggregateStatement) -> ExecutionResult<ResultRow> {
         self.aggregate_execution_engine.execute_result(aggregate_statement)
+    }
+
+    /// Returns true if a select statement already has produced all the rows that its limit allows.
+    pub fn reached_limit(&self) -> bool {
+        match self.statement {
+            Statement::Select(select_statement) => {
+                select_statement.limit.map(|limit| self.num_output_rows >= limit).unwrap_or(false)
+            }
+            _ => false
+        }
+    }
+
+    fn update_select_limit(&mut self, limit: Option<usize>, mut output: ExecutionOutput) -> ExecutionOutput {
+        if let Some(row) = output.result_row.as_mut() {
+            if let Some(limit) = limit {
+                // One line can produce several rows (join): the ones beyond the limit are not part of the result
+                let remaining = limit.saturating_sub(self.num_output_rows);
+                if row.data.len() > remaining {
+                    row.data.truncate(remaining);
+                }
+            }
+
+            // Every row counts, also the ones that only consist of NULLs
+            self.num_output_rows += row.data.len();
+        }
+
+        if let Some(limit) = limit {
+            if self.num_output_rows >= limit {
+                output = output.with_reached_limit();
+            }
+        }
+
+        output
     }
 
     fn update_limit(&mut self, limit: Option<usize>, mut output: ExecutionOutput) -> ExecutionOutput {
